@@ -12,7 +12,7 @@ from concurrent.futures import ThreadPoolExecutor
 
 from .. import lib
 
-SRC = {"lit_int": "5", "lit_str": '"lit"', "cv_int": "CV_INT", "cv_str": "CV_STR", "cv_vec": "CV_VEC", "cv_map": "CV_MAP", "gc_int": "G_CI",
+SRC = {"lit_int": "5", "lit_str": '"lit"', "lit_neg": "-5", "lit_compl": "~5", "lit_plus": "+5", "lit_fold": "(2 + 3)", "cv_int": "CV_INT", "cv_str": "CV_STR", "cv_vec": "CV_VEC", "cv_map": "CV_MAP", "gc_int": "G_CI",
        "cref_int": "cref_int()", "cptr_int": "cptr_int()", "cref_str": "cref_str()", "cref_vec": "cref_vec()", "cref_map": "cref_map()",
        "cref_tk": "tk_cref()", "cptr_tk": "tk_cptr()", "csp_tk": "CSP_TK", "cw_int": "CW_INT",
        "nc_int": "NC_INT", "nc_str": "NC_STR", "nc_vec": "NC_VEC", "nc_map": "NC_MAP", "nc_tk": "NC_TK"}
@@ -194,7 +194,7 @@ def run(ck, tier, seed):
             if run1["oc"] == "val" and run1["out"][-1:] == ["done"]:
                 ck.violation(name, f"the mutation attempt through a const handle succeeded without error: {p['script']}; prog()", {"path": p, "run": run1})
     ck.extra["const_paths_without_working_control"] = unverifiable
-    ck.rule = ("every chain source x routes (<=1 all" + (", a seeded 2500 of length 2" if quick else ", length 2 all") + ") x mutator of Pred() in ConstAlias.tla: 17 const sources "
+    ck.rule = ("every chain source x routes (<=1 all" + (", a seeded 2500 of length 2" if quick else ", length 2 all") + ") x mutator of Pred() in ConstAlias.tla: 22 const sources "
                "(literals, const_var / add_global_const values, C++ objects by const&, const*, cref wrapper, shared_ptr<const>, const return), 15 routes, "
                "6-19 mutators per type, each also on a mutable control; distinct = (type, mutator, routes, predicted result)")
     ck.sample({"path": {k: paths[0][k] for k in ("src", "routes", "mut", "res")}, "script": paths[0]["script"]})
